@@ -100,6 +100,8 @@ def _ground(ob, ctx, rounds=2, max_terms=60):
     for it in ob.sums or []:
         if it[0] == "term":
             terms[it[1].get_id()] = it[1]
+    for t in getattr(ctx, "extra_terms", []):
+        terms[t.get_id()] = t
     done = set()
     unfolded = set()
     extra = []
